@@ -16,7 +16,10 @@
 (* no Add is lost (NoLostAdd).                                               *)
 (* Defect = "lad-split": LoadAndDelete reads under RLock and deletes under a *)
 (* second (write) lock;  Defect = "no-doublecheck": GetOrCreate creates      *)
-(* without looking again.  Both must make TLC report a violation.            *)
+(* without looking again;  Defect = "range-split": Range snapshots the keys   *)
+(* and then Loads each key under a lock of its own (so that the callback may *)
+(* call back into the map) - it can report a view no instant ever had.  All  *)
+(* three must make TLC report a violation.                                   *)
 EXTENDS AtomicMap, TLC
 
 CONSTANTS Procs, Keys, MaxOps, MapOps, AtomOps, Defect
@@ -34,11 +37,12 @@ Init == /\ lock = [w |-> 0, r |-> {}]
         /\ stores = [k \in Keys |-> 0] /\ wins = [k \in Keys |-> 0]
         /\ handles = [k \in Keys |-> {}] /\ dels = [k \in Keys |-> 0] /\ adds = 0
 
-IsMapOp(e) == e.op \in {"store", "load", "delete", "loadanddelete", "len", "clear"}
+IsMapOp(e) == e.op \in {"store", "load", "delete", "loadanddelete", "len", "clear", "range"}
 Invocations(p) ==
     {[op |-> "store", k |-> k, v |-> p * 10 + nops[p]] : k \in IF "store" \in MapOps THEN Keys ELSE {}}
     \cup {[op |-> o, k |-> k] : o \in MapOps \cap {"load", "delete", "loadanddelete"}, k \in Keys}
     \cup {[op |-> o] : o \in MapOps \cap {"len", "clear"}}
+    \cup {[op |-> "range", n |-> 99] : x \in IF "range" \in MapOps THEN {1} ELSE {}}
     \cup {[op |-> "getorcreate", k |-> k, v |-> p * 10] : k \in IF "getorcreate" \in AtomOps THEN Keys ELSE {}}
     \cup {[op |-> o, k |-> k] : o \in AtomOps \cap {"get", "adelete"}, k \in Keys}
     \cup {[op |-> o] : o \in AtomOps \cap {"aclear"}}
@@ -83,6 +87,9 @@ NoLin == UNCHANGED <<abs, good>>
 Lookup(f, k) == IF k \in DOMAIN f THEN f[k] ELSE 0
 Without(f, k) == [x \in (DOMAIN f) \ {k} |-> f[x]]
 With(f, k, v) == [x \in (DOMAIN f) \cup {k} |-> IF x = k THEN v ELSE f[x]]
+RECURSIVE SeqOf(_)
+SeqOf(S) == IF S = {} THEN << >> ELSE LET x == CHOOSE y \in S : TRUE IN <<x>> \o SeqOf(S \ {x})
+Entries(ks) == [i \in 1..Len(ks) |-> [k |-> ks[i], v |-> cm[ks[i]]]]      \* what Range hands to its callback
 LoadRes(k) == IF k \in DOMAIN cm THEN [ok |-> TRUE, v |-> cm[k]] ELSE [ok |-> FALSE, v |-> 0]
 
 Body1(p) == /\ pc[p] = "b1" /\ Release(p)
@@ -101,6 +108,12 @@ Body1(p) == /\ pc[p] = "b1" /\ Release(p)
                                /\ pc' = [pc EXCEPT ![p] = "ret"] /\ UNCHANGED <<items, hval, nh>>
                  [] e.op = "len" -> /\ res' = [res EXCEPT ![p] = Cardinality(DOMAIN cm)] /\ Lin(p, Cardinality(DOMAIN cm))
                                     /\ pc' = [pc EXCEPT ![p] = "ret"] /\ UNCHANGED <<cm, items, hval, nh>>
+                 [] e.op = "range" ->
+                        IF Defect = "range-split"      \* snapshot the keys now, Load each of them later, one lock each
+                          THEN /\ res' = [res EXCEPT ![p] = [todo |-> SeqOf(DOMAIN cm), got |-> << >>]] /\ NoLin
+                               /\ pc' = [pc EXCEPT ![p] = "a2"] /\ UNCHANGED <<cm, items, hval, nh>>
+                          ELSE /\ res' = [res EXCEPT ![p] = Entries(SeqOf(DOMAIN cm))] /\ Lin(p, Entries(SeqOf(DOMAIN cm)))
+                               /\ pc' = [pc EXCEPT ![p] = "ret"] /\ UNCHANGED <<cm, items, hval, nh>>
                  [] e.op = "clear" -> /\ cm' = << >> /\ res' = [res EXCEPT ![p] = 0] /\ Lin(p, 0)
                                       /\ pc' = [pc EXCEPT ![p] = "ret"] /\ UNCHANGED <<items, hval, nh>>
                  [] e.op = "get" -> LET h == Lookup(items, e.k) r == [ok |-> h # 0, h |-> h] IN
@@ -121,13 +134,23 @@ Body2(p) == /\ pc[p] = "b2" /\ Release(p)
             /\ LET e == cur[p] IN
                CASE e.op = "loadanddelete" ->        \* only with Defect = "lad-split"
                         /\ cm' = Without(cm, e.k) /\ Lin(p, res[p]) /\ UNCHANGED <<items, hval, nh, res>>
+                        /\ pc' = [pc EXCEPT ![p] = "ret"]
+                 [] e.op = "range" ->                \* only with Defect = "range-split": one Load per round
+                        LET r == res[p] IN
+                        IF r.todo = << >>
+                          THEN /\ res' = [res EXCEPT ![p] = r.got] /\ Lin(p, r.got)
+                               /\ pc' = [pc EXCEPT ![p] = "ret"] /\ UNCHANGED <<cm, items, hval, nh>>
+                          ELSE LET k == Head(r.todo) IN
+                               /\ res' = [res EXCEPT ![p] = [todo |-> Tail(r.todo),
+                                              got |-> IF k \in DOMAIN cm THEN Append(r.got, [k |-> k, v |-> cm[k]]) ELSE r.got]]
+                               /\ NoLin /\ pc' = [pc EXCEPT ![p] = "a2"] /\ UNCHANGED <<cm, items, hval, nh>>
                  [] e.op = "getorcreate" ->
                         LET h == Lookup(items, e.k) IN
-                        IF h # 0 /\ Defect # "no-doublecheck"
+                        /\ pc' = [pc EXCEPT ![p] = "ret"]
+                        /\ IF h # 0 /\ Defect # "no-doublecheck"
                           THEN /\ res' = [res EXCEPT ![p] = h] /\ Lin(p, h) /\ UNCHANGED <<cm, items, hval, nh>>
                           ELSE /\ nh' = nh + 1 /\ items' = With(items, e.k, nh + 1) /\ hval' = With(hval, nh + 1, e.v)
                                /\ res' = [res EXCEPT ![p] = nh + 1] /\ Lin(p, nh + 1) /\ UNCHANGED cm
-            /\ pc' = [pc EXCEPT ![p] = "ret"]
             /\ UNCHANGED <<cur, held, nops, stores, wins, handles, dels, adds>>
 
 HBody(p) == /\ pc[p] = "hb"
